@@ -34,6 +34,14 @@ def hs_signature(m):
     return "handshake:%s:%s:%s" % (c["role"], m["what"], c["expect"]["res"])
 
 
+def handover_signature(c, m):
+    """`h_codec handover` mismatch: the frames written behind a Hand / Shake as read by the codec."""
+    if m["what"] in ("io", "render", "handshake_failed"):
+        return "handshake:handover:%s:%s" % (m["what"], c["role"])
+    lost = "next_message_lost" if m["what"] in ("missing", "eof") else "stream_cut"
+    return "handshake:%s:%s:%s" % ("coalesced" if c.get("coalesced") else "handover", lost, c["role"])
+
+
 def hs_what(m):
     c = m["case"]
     if c.get("role") == "ring":
@@ -120,6 +128,17 @@ def run(tier, replay):
             stats, mms = replay_codec(rep, wd, [case["case"]], False, extra, "replay")
             for m in mms:
                 rep.violation(obj["signature"], case, "%s: %s" % (m["what"], m["detail"]))
+        elif case.get("kind") == "handover":
+            cp = os.path.join(wd, "replay_ho.ndjson"); outp = os.path.join(wd, "replay_ho_out.ndjson")
+            vlib.write_ndjson(cp, [case["case"]])
+            run_harness(["codec", "handover", "--cases", cp, "--out", outp], "handover")
+            for m in vlib.read_ndjson(outp)[:1]:
+                m.pop("case", None)
+                rep.violation(obj["signature"], case, json.dumps(m)[:600])
+        elif case.get("kind") == "conn":
+            _, v = conn_run(wd, "replay", 0, [case["case"]])
+            if v:
+                rep.violation(obj["signature"], case, v[2])
         elif case.get("kind") == "trace":
             r = vlib.tlc("trace/CodecTrace", workers=1, coverage=False, env={"TRACE": case["trace"]}, xss="512m", xmx="4g", timeout=1500)
             if not r.finished:
@@ -186,6 +205,48 @@ def run(tier, replay):
     th = threading.Thread(target=ring_bg)
     th.start()
 
+    # (M4) CodecConn.tla: the reader loop above the codec; (M5/A4) CodecHandover.tla: the byte stream
+    # handed from read_message (handshake) to the codec, plans replayed on the real
+    # Handshake::initiate / accept + Codec on one socket.  Small jobs: run beside the codec replay.
+    def models_bg():
+        try:
+            rc = vlib.tlc("mc/MC_CodecConn", "mc/MC_CodecConn", workers=2, timeout=900)
+            if rc.invariant_violated:
+                print(rc.out[-3000:])
+                raise ToolError("CodecConn.tla invariant %s violated inside the model" % rc.invariant_violated)
+            vlib.tlc_ok(rc, "MC_CodecConn")
+            for a_ in ("CodecStep", "Dispatch", "EndOfStream"):
+                if rc.action_counts().get(a_, (0, 0))[1] == 0:
+                    raise ToolError("CodecConn.tla action %s never taken" % a_)
+            rcp = vlib.tlc("mc/MC_CodecConn", "mc/MC_CodecConn_probe_skip", workers=1, coverage=False, timeout=600)
+            if "ClosedOnRefusal" not in rcp.invariant_violated:
+                print(rcp.out[-3000:])
+                raise ToolError("CodecConn.tla does not notice a reader loop that skips Error::Serialization (probe passed)")
+            rh_ = vlib.tlc("mc/MC_CodecHandover", "mc/MC_CodecHandover", workers=2, timeout=600)
+            if rh_.invariant_violated:
+                print(rh_.out[-3000:])
+                raise ToolError("CodecHandover.tla invariant %s violated inside the model" % rh_.invariant_violated)
+            vlib.tlc_ok(rh_, "MC_CodecHandover")
+            for a_ in ("Deliver", "ReadExact"):
+                if rh_.action_counts().get(a_, (0, 0))[1] == 0:
+                    raise ToolError("CodecHandover.tla action %s never taken" % a_)
+            rhp = vlib.tlc("mc/MC_CodecHandover", "mc/MC_CodecHandover_probe_buffered", workers=1, coverage=False, timeout=600)
+            if not rhp.invariant_violated:
+                print(rhp.out[-3000:])
+                raise ToolError("CodecHandover.tla does not notice a read_message that reads ahead (probe passed)")
+            plans = emit(("mc/MC_CodecHandover", "mc/MC_CodecHandover_emit"), "HANDOVER", "MC_CodecHandover emit")
+            if len(plans) < 100 or not any(p_["coalesced"] for p_ in plans):
+                raise ToolError("too few hand-over plans emitted (%d)" % len(plans))
+            pp = os.path.join(wd, "handover.ndjson"); po = os.path.join(wd, "handover_out.ndjson")
+            vlib.write_ndjson(pp, plans)
+            hst, _ = run_harness(["codec", "handover", "--cases", pp, "--out", po], "handover")
+            bg["models"] = {"conn": rc, "conn_probe": rcp, "handover": rh_, "handover_probe": rhp, "plans": plans,
+                            "handover_stats": hst, "handover_out": vlib.read_ndjson(po) if hst is not None else []}
+        except BaseException as e:
+            bg["exc2"] = e
+    th2 = threading.Thread(target=models_bg)
+    th2.start()
+
     # (A1) streams + expectations from TLC, rendered and fragmented on loopback, read by the real Codec
     cases = emit(("mc/MC_Codec", "mc/MC_Codec_emit_thorough" if thorough else "mc/MC_Codec_emit"), "CODECCASE", "MC_Codec emit")
     if len(cases) < 100:
@@ -221,8 +282,27 @@ def run(tier, replay):
     if hstats is None or hstats["executed"] < 20:
         raise ToolError("handshake cases not executed")
     th.join()
+    th2.join()
     if "exc" in bg:
         raise bg["exc"]
+    if "exc2" in bg:
+        raise bg["exc2"]
+    mo = bg["models"]
+    if mo["handover_stats"] is None:
+        rep.violation("handshake:handover:harness_abort", {"kind": "abort"}, "the harness died while the codec was reading behind a handshake")
+    elif mo["handover_stats"]["executed"] < len(mo["plans"]):
+        raise ToolError("hand-over plans not executed")
+    seen_ho = set()
+    for m in mo["handover_out"]:
+        c = m.pop("case")
+        sig = handover_signature(c, m)
+        if sig in seen_ho:
+            continue
+        seen_ho.add(sig)
+        rep.violation(sig, {"kind": "handover", "case": c, "mismatch": m},
+                      "%s reads its handshake message, then the codec on the same socket; writes cut at %s (%s), %d frame(s) behind the handshake message: %s %s, codec returned %s" % (
+                          c["role"], json.dumps(c["cuts"]), "handshake message and what follows in ONE write" if c["coalesced"] else "handshake message ends a write",
+                          len(c["frames"]), m["what"], m.get("detail", ""), json.dumps(m.get("observed"))[:200]))
     if bg.get("stats") is None:
         raise ToolError("handshake ring script (full) not executed")
     ring_conns = hstats.get("ring_connections", 0) + bg["stats"].get("ring_connections", 0)
@@ -241,12 +321,13 @@ def run(tier, replay):
         rep.violation(sig, {"kind": "handshake", "case": c, "mismatch": mm}, hs_what(m))
 
     # (B) what conn::listen hands to a MessageHandler for random message sequences
-    bstats = direction_b(rep, wd, thorough)
+    bstats = direction_b(rep, wd, thorough, cases)
 
     n_refusal = sum(1 for c in cases if c["expect"] and c["expect"][-1]["r"] == "err")
     rep.coverage = {
-        "states": states + rh.distinct + rrf.distinct + rrl.distinct, "transitions": trans + rh.generated + rrf.generated + rrl.generated,
-        "traces_validated_against_impl": (stats.get("runs", 0) if stats else 0) + hstats["executed"] + 1 + bstats.get("sequences", 0),
+        "states": states + rh.distinct + rrf.distinct + rrl.distinct + mo["conn"].distinct + mo["handover"].distinct,
+        "transitions": trans + rh.generated + rrf.generated + rrl.generated + mo["conn"].generated + mo["handover"].generated,
+        "traces_validated_against_impl": (stats.get("runs", 0) if stats else 0) + hstats["executed"] + 1 + bstats.get("sequences", 0) + (mo["handover_stats"] or {}).get("executed", 0),
         "samples": [
             {"frames": [f["k"] + ":t%d:len%d" % (f["t"], f["len"]) for f in cases[len(cases) // 3]["frames"]],
              "expect": cases[len(cases) // 3]["expect"]},
@@ -268,6 +349,11 @@ def run(tier, replay):
         "model_probe_timeout_per_read_call": {"cfg": "mc/MC_Codec_probe_hoist", "violated": rp.invariant_violated},
         "ring_scripts": {"fast": {"connections": len(ring_fast["conns"]), "states": rrf.distinct},
                          "full": {"connections": len(ring_full["conns"]), "states": rrl.distinct}},
+        "conn_model": {"states": mo["conn"].distinct, "probe_violated": mo["conn_probe"].invariant_violated},
+        "handover_model": {"states": mo["handover"].distinct, "probe_violated": mo["handover_probe"].invariant_violated},
+        "handover_plans_replayed": (mo["handover_stats"] or {}).get("executed", 0),
+        "handover_plans_with_handshake_message_and_next_frames_in_one_write": (mo["handover_stats"] or {}).get("coalesced_plans", 0),
+        "results_read_by_codec_behind_handshakes": (mo["handover_stats"] or {}).get("results_read_behind_handshakes", 0),
         "ring_connections_replayed": ring_conns, "ring_max_outbound_initiations_on_one_object": ring_outbound,
         "read_timeouts_observed": stats.get("timeouts_observed") if stats else 0,
         "frames_identical_to_write_message": stats.get("frames_checked_against_write_message") if stats else 0,
@@ -276,11 +362,13 @@ def run(tier, replay):
         "selftest_corruptions_rejected": len(mm2),
         "direction_b": bstats,
         "wire_constants": consts,
-        "checker_cmd": "tlc mc/MC_Codec; tlc mc/MC_Codec_probe_hoist; tlc mc/MC_Handshake; tlc mc/MC_HandshakeRing_fast|full; h_codec replay|handshake|record",
+        "checker_cmd": "tlc mc/MC_Codec; tlc mc/MC_Codec_probe_hoist; tlc mc/MC_Handshake; tlc mc/MC_HandshakeRing_fast|full; tlc mc/MC_CodecConn(+probe_skip); tlc mc/MC_CodecHandover(+probe_buffered); tlc trace/CodecTrace; h_codec replay|handshake|handover|record",
     }
     rep.assumptions = [
         "chain type AutomatedTesting (max_block_size 7788, header 257 bytes, PoW 8-cycles on 2^10 edges); other chain types only change the constants",
         "every fragment gap stays inside the I/O timeouts as the property states (Codec.tla SilenceOK): pauses longer than HEADER_IO_TIMEOUT (2 s; 2.3-2.6 s in the socket runs) occur between frames and after the 11 header bytes of a frame (body, header items, attachment chunks), never inside the 11 header bytes; pauses near BODY_IO_TIMEOUT (60 s) are in the model only",
+        "connection level: the reader loop is the real conn::listen with a recording MessageHandler; 'refused' means nothing behind the frame reaches the handler and the reader shuts the socket down while the peer's side is still open (waited for up to 5 s); the Peer / ban logic above it is not exercised",
+        "hand-over: the handshake message and the frames behind it are written by a raw peer in one write (or cut as planned) on loopback, where one write of < 1 KiB arrives as one segment; the plans cover Shake (initiate) and Hand (accept)",
         "nonce ring: the scripts exceed NONCES_CAP by a few initiations on one Handshake object; broken dials are realised by a socket whose write side is shut down (the Hand cannot be written), concurrent dials are not exercised",
         "fragmentation is forced by waiting until the reader drained the socket (FIONREAD) before the next write; the kernel may still coalesce fragments of the unsynchronised random plans",
         "the real side of every handshake case has PROTOCOL_VERSION 1000 (the constant of the build); the other model cases are checked in TLC only",
@@ -291,30 +379,98 @@ def run(tier, replay):
     return rep.finish()
 
 
-def direction_b(rep, wd, thorough):
-    """conn::listen + MessageHandler: recorded deliveries validated by spec/trace/CodecTrace.tla."""
-    if not os.path.exists(os.path.join(vlib.SPEC, "trace", "CodecTrace.tla")):
-        return {"built": False}
-    tp = os.path.join(wd, "listen_trace.ndjson")
-    nseq = 60 if thorough else 16
-    stats, p = run_harness(["codec", "record", "--out", tp, "--tmp", vlib.workdir(PID, "tmp"), "--seed", vlib.seed(), "--seqs", nseq], "record")
+def conn_verdict(tp, out):
+    """Narrow signature of a trace rejected by CodecTrace.tla, from the rejected event and the
+    sequence (Reset event) it belongs to."""
+    m = re.search(r'TRACE-REJECTED at event", (\d+)', out)
+    events = vlib.read_ndjson(tp)
+    d = int(m.group(1)) if m else 0
+    if d < 1 or d > len(events):
+        return "conn:listen:trace", {"rejected_event": d}, "trace rejected at event %d" % d
+    e = events[d - 1]
+    j = d - 1
+    while j > 0 and events[j].get("k") != "Reset":
+        j -= 1
+    rs = events[j]
+    seq = [rs]
+    for x in events[j + 1:]:
+        if x.get("k") == "Reset":
+            break
+        seq.append(x)
+    kinds = rs.get("kinds") or []
+    kind = next((k for k in kinds if k), "")
+    if e.get("k") == "Deliver":
+        what = "delivered_after" if kind else "unexpected_delivery"
+    elif e.get("k") == "Closed":
+        if not e.get("closed"):
+            what = "never_closed"
+        elif kind and not e.get("before_eof"):
+            what = "connection_kept"
+        elif not e.get("files_ok"):
+            what = "attachment_file"
+        else:
+            what = "deliveries_missing"
+    else:
+        what = "trace"
+    if kind and what in ("delivered_after", "connection_kept", "never_closed"):
+        sig = "conn:refused_frame:%s:%s" % (what, kind)
+    else:
+        sig = "conn:listen:%s" % what
+    frames = ["%s:t%d:len%d:body%d%s" % (f["k"], f["t"], f["len"], f["body"], "" if f["magic"] else ":badmagic") for f in rs["frames"]]
+    text = "conn::listen on frames %s (refusal: %s): event %d %s not allowed by CodecConn.tla; recorded %s" % (
+        frames, kinds, d - j, json.dumps(e), json.dumps([x for x in seq[1:]])[:300])
+    case = {"frames": rs["frames"], "kinds": kinds, "case_id": rs.get("case", -1)}
+    return sig, {"kind": "conn", "case": case, "rejected_event": e, "recorded": seq[1:]}, text
+
+
+def conn_run(wd, name, nseq, cases):
+    """One `h_codec record` run (real conn::listen) validated by spec/trace/CodecTrace.tla.
+    Returns (stats, verdict); verdict is None or (signature, replay object, text)."""
+    tp = os.path.join(wd, "listen_trace_%s.ndjson" % name)
+    args = ["codec", "record", "--out", tp, "--tmp", vlib.workdir(PID, "tmp"), "--seed", vlib.seed(), "--seqs", nseq]
+    if cases:
+        cp = os.path.join(wd, "listen_cases_%s.ndjson" % name)
+        vlib.write_ndjson(cp, cases)
+        args += ["--cases", cp]
+    stats, p = run_harness(args, "record")
     if stats is None:
-        rep.violation("codec:listen:harness_abort", {"kind": "abort", "stderr": (p.stderr or "")[-600:]}, "harness died while conn::listen was reading")
-        return {"built": True}
+        return {}, ("codec:listen:harness_abort", {"kind": "abort", "stderr": (p.stderr or "")[-600:]}, "harness died while conn::listen was reading")
     r = vlib.tlc("trace/CodecTrace", workers=1, coverage=False, env={"TRACE": tp}, xss="512m", xmx="4g", timeout=1500)
     if r.finished:
-        stats["built"] = True
-        return stats
+        return stats, None
     if "TRACE-REJECTED" in r.out:
-        ls = r.out.splitlines()
-        i = [k for k, x in enumerate(ls) if "TRACE-REJECTED" in x][0]
-        line = " ".join(x.strip() for x in ls[i:i + 8])
-        keep = os.path.join(vlib.OUT, "replays", "C19_listen_trace_%d.ndjson" % vlib.seed())
-        os.makedirs(os.path.dirname(keep), exist_ok=True)
-        import shutil
-        shutil.copy(tp, keep)
-        rep.violation("codec:listen:trace_rejected", {"kind": "trace", "trace": keep, "rejected": line}, line[:500])
-        stats["built"] = True
-        return stats
+        sig, obj, text = conn_verdict(tp, r.out)
+        return stats, (sig, obj, text[:700])
     print(r.out[-4000:])
     raise ToolError("CodecTrace failed without a verdict")
+
+
+def direction_b(rep, wd, thorough, cases):
+    """conn::listen + MessageHandler: recorded deliveries and the closing of the socket validated by
+    spec/trace/CodecTrace.tla (CodecConn.tla run on the recorded frame sequence)."""
+    sel = []
+    for i, c in enumerate(cases):
+        if c["total"] <= 70000:
+            c2 = dict(c); c2["case_id"] = i
+            sel.append(c2)
+    mid = [c for c in sel if any(c["kinds"][:-1])]
+    last = [c for c in sel if any(c["kinds"]) and not any(c["kinds"][:-1])]
+    honest = [c for c in sel if not any(c["kinds"]) and c["total"] <= 20000]
+    step = max(1, len(honest) // (300 if thorough else 100))
+    honest = honest[vlib.seed() % step::step]
+    if len(mid) < 20:
+        raise ToolError("too few streams with a refused frame in the middle (%d)" % len(mid))
+    # (a) a refused frame followed by valid ones: nothing behind it is delivered, the reader closes
+    sa, va = conn_run(wd, "mid", 0, mid)
+    # (b) random sequences, refused frames at the end, honest streams
+    sb, vb = conn_run(wd, "mix", 60 if thorough else 16, last + honest)
+    for v in (va, vb):
+        if v and not (va and v is vb and v[0] == va[0]):
+            rep.violation(*v)
+    return {"built": True, "sequences": sa.get("sequences", 0) + sb.get("sequences", 0),
+            "refused_in_the_middle_sequences": sa.get("sequences", 0),
+            "random_sequences": sb.get("random_sequences", 0),
+            "model_sequences": sa.get("model_sequences", 0) + sb.get("model_sequences", 0),
+            "merged_deliveries": sa.get("merged_deliveries", 0) + sb.get("merged_deliveries", 0),
+            "closed_by_reader_before_eof": sa.get("closed_by_reader_before_eof", 0) + sb.get("closed_by_reader_before_eof", 0),
+            "events": sa.get("events", 0) + sb.get("events", 0)}
